@@ -7,6 +7,31 @@ use crate::sim::Sim;
 pub fn exec_op2(sim: &Sim, op: &Op, _in_cb: bool) {
     match op {
         Op::InsertLifecycle { id, with_ping, synth, script, .. } => crate::life::insert_lifecycle(sim, *id, *with_ping, synth, script),
+        Op::InsertExecutor { id, script } => crate::exec::insert_executor(sim, *id, script),
+        Op::Schedule { exec, task, pendings, script } => crate::exec::schedule(sim, *exec, *task, *pendings, script),
+        Op::Wake(t) => crate::exec::wake(sim, *t),
+        Op::AdaptIo { id, fd, blocking, .. } => crate::adapter::adapt_io(sim, *id, *fd, *blocking),
+        Op::AdapterIntoInner(id) => crate::adapter::release(sim, *id, true),
+        Op::AdapterDrop(id) => crate::adapter::release(sim, *id, false),
+        Op::AdapterTask { exec, task, adapter, kind, total, chunk, then } => crate::adapter::adapter_task(sim, *exec, *task, *adapter, *kind, *total, *chunk, *then),
+        Op::AdapterPeerWrite(id, n) => crate::adapter::peer_write(sim, *id, *n),
+        Op::AdapterPeerRead(id, n) => crate::adapter::peer_read(sim, *id, *n),
+        Op::AdapterPeerClose(id) => crate::adapter::peer_close(sim, *id),
+        Op::SendMany(id, n) => {
+            for _ in 0..*n {
+                crate::ops::exec_op(sim, &Op::Send(*id), _in_cb);
+            }
+            sim.probe("send_many");
+        }
+        Op::ScheduleMany { exec, base, n } => {
+            for i in 0..*n {
+                crate::exec::schedule(sim, *exec, base + i, 0, &[]);
+            }
+            sim.probe("schedule_many");
+        }
+        Op::InsertStream { id, script } => crate::exec::insert_stream(sim, *id, script),
+        Op::StreamPush(id) => crate::exec::stream_push(sim, *id, false),
+        Op::StreamEnd(id) => crate::exec::stream_push(sim, *id, true),
         _ => {}
     }
 }
